@@ -160,7 +160,7 @@ pub fn check(c: &Case) -> Outcome {
 pub fn def() -> PropDef {
     PropDef {
         id: "C13",
-        rule: "a constructed manager state: 1-39 pieces with a status vector whose number of non-Have entries is drawn around the end-game threshold (9, 10, 11 forced), Reserved(1..3) mixed in; 1-6 peers with generated advertised sets (random, sparse, full, empty, all identical); the real choose_piece_index is called 8 times for a generated asking peer (samples its internal shuffle). Oracle (validity predicate over any tie-break): result is None iff no candidate exists; otherwise it is advertised by the asking peer, not owned, not reserved unless fewer than 10 pieces are missing, and no candidate is advertised by fewer connected peers. Sub histories: the wire-driven histories of C12 (real connection tasks and manager, pieces completing, chokes with blocks in flight, disconnects) judged by one clause of this property: no assignment picks a piece that another peer is already fetching while ten or more pieces are missing - this reaches manager state that set-up hooks cannot construct (e.g. bookkeeping that drifts when a piece completes twice). Non-trivial (states) = two candidates with different availability or missing in {9,10,11}; distinct by hash of the case.",
+        rule: "a constructed manager state: 1-39 pieces with a status vector whose number of non-Have entries is drawn around the end-game threshold (9, 10, 11 forced), Reserved(1..3) mixed in; 1-6 peers with generated advertised sets (random, sparse, full, empty, all identical); the real choose_piece_index is called 8 times for a generated asking peer (samples its internal shuffle). Oracle (validity predicate over any tie-break): result is None iff no candidate exists; otherwise it is advertised by the asking peer, not owned, not reserved unless fewer than 10 pieces are missing, and no candidate is advertised by fewer connected peers. Sub histories: the wire-driven histories of C12 (real connection tasks and manager, pieces completing, chokes with blocks in flight, disconnects) judged by one clause of this property: no assignment picks a piece that another peer is already fetching while ten or more pieces are missing, and an unchoking peer whose Unchoke or finished piece makes the manager pick gets a piece whenever it advertises one that is Missing (\"picks nothing exactly when no such piece exists\") - this reaches manager state that set-up hooks cannot construct (e.g. bookkeeping that drifts when a piece completes twice). Non-trivial (states) = two candidates with different availability or missing in {9,10,11}; distinct by hash of the case.",
         assumptions: &["states are constructed through set-up hooks (verif_set_status / verif_set_peer_pieces); reachability of each state through real traffic is not required by the property (it quantifies over all status vectors and peer sets)"],
         subs: vec![Sub {
             name: "states",
